@@ -7058,7 +7058,7 @@ class SSHServerConnection(SSHConnection):
 
         """
 
-        return self._key_options.get(option, default)
+        return self._key_options.get(option.lower(), default)
 
     def check_key_permission(self, permission: str) -> bool:
         """Check permissions in authorized_keys
@@ -7093,7 +7093,7 @@ class SSHServerConnection(SSHConnection):
 
         """
 
-        return not self._key_options.get('no-' + permission, False)
+        return not self._key_options.get('no-' + permission.lower(), False)
 
     def get_certificate_option(self, option: str,
                                default: object = None) -> object:
